@@ -34,6 +34,10 @@ pub struct HybCfg {
     /// clean block threshold / reclaimers of the block engine
     pub thr: usize,
     pub reclaimers: usize,
+    /// block size in bytes (default 16 KiB; 1 MiB makes blocks hold several blobs)
+    pub bsize: usize,
+    /// reinsertion filter of the reclaimer: 0 = reject all (default), n = admit the keys divisible by n
+    pub reins: u64,
     /// "hyb" or "blk" (same executor; `blk` traces carry per-key loads and go to the C09 driver)
     pub domain: String,
     pub hmode: HMode,
@@ -43,7 +47,7 @@ pub struct HybCfg {
 impl HybCfg {
     pub fn line(&self) -> String {
         format!(
-            "cfg domain={} policy={} foc={} tomb={} memcap={} memalgo={} blocks={} flushers={} lossy={} thr={} reclaimers={} hmode={} keys={}",
+            "cfg domain={} policy={} foc={} tomb={} memcap={} memalgo={} blocks={} flushers={} lossy={} thr={} reclaimers={} reins={} bsize={} hmode={} keys={}",
             self.domain,
             if self.woi { "woi" } else { "woe" },
             self.foc as u8,
@@ -55,6 +59,8 @@ impl HybCfg {
             self.lossy as u8,
             self.thr,
             self.reclaimers,
+            self.reins,
+            self.bsize,
             self.hmode.show(),
             self.keys
         )
@@ -73,6 +79,8 @@ impl HybCfg {
             lossy: g("lossy", "0") == "1",
             thr: g("thr", "1").parse().unwrap_or(1),
             reclaimers: g("reclaimers", "1").parse().unwrap_or(1),
+            reins: g("reins", "0").parse().unwrap_or(0),
+            bsize: g("bsize", "16384").parse().unwrap_or(BLOCK),
             domain: g("domain", "hyb"),
             hmode: HMode::parse(&g("hmode", "id")),
             keys: g("keys", "4").parse().unwrap_or(4),
@@ -155,6 +163,8 @@ pub struct HExec {
     pub held: bool,
     /// do not touch the watchdog's current-operation / current-trace state (the caller maintains it)
     pub quiet: bool,
+    /// do not load every key after every operation (long directed scenarios)
+    pub skip_loads: bool,
 }
 
 fn show(v: Vec<String>) -> String {
@@ -187,13 +197,14 @@ impl HExec {
             truth: BTreeMap::new(),
             held: false,
             quiet: false,
+            skip_loads: false,
         };
         ex.open();
         ex
     }
 
     pub fn device_capacity(&self) -> usize {
-        self.cfg.blocks * BLOCK + if self.cfg.tomb { PAGE } else { 0 }
+        self.cfg.blocks * self.cfg.bsize + if self.cfg.tomb { PAGE } else { 0 }
     }
 
     pub fn open(&mut self) {
@@ -210,7 +221,7 @@ impl HExec {
         let cache = self.rt.block_on(async move {
             let device = FsDeviceBuilder::new(&path).with_capacity(cap).build().unwrap();
             let engine = BlockEngineConfig::new(device)
-                .with_block_size(BLOCK)
+                .with_block_size(cfg.bsize)
                 .with_blob_index_size(PAGE)
                 .with_flushers(cfg.flushers)
                 .with_reclaimers(cfg.reclaimers)
@@ -220,6 +231,14 @@ impl HExec {
                 .with_clean_block_threshold(cfg.thr)
                 .with_tombstone_log(cfg.tomb)
                 .with_flush_switch(switch);
+            let engine = if cfg.reins > 0 {
+                let admits = (0..cfg.keys).filter(|k| k % cfg.reins == 0);
+                engine.with_reinsertion_filter(
+                    foyer_storage::StorageFilter::new().with_condition(foyer_storage::test_utils::Biased::new(admits)),
+                )
+            } else {
+                engine
+            };
             let b = HybridCacheBuilder::new()
                 .with_event_listener(Arc::new(EvListener { log: evlog }))
                 .with_policy(if cfg.woi { HybridCachePolicy::WriteOnInsertion } else { HybridCachePolicy::WriteOnEviction })
@@ -489,7 +508,7 @@ impl HExec {
                 .collect();
             let _ = write!(line, " bev={}", show(evs));
         }
-        if self.cfg.domain == "blk" && !self.held && self.sim.pending_ids().is_empty() && !self.sim.st.lock().gated {
+        if self.cfg.domain == "blk" && !self.skip_loads && !self.held && self.sim.pending_ids().is_empty() && !self.sim.st.lock().gated {
             // what the disk tier delivers for every key (no memory population)
             let mut loads = vec![];
             for k in 0..self.cfg.keys {
@@ -547,6 +566,11 @@ pub struct GenOpts {
     pub overload: bool,
     /// C09: no removes (the default pickers must then reclaim oldest-filled first)
     pub nodel: bool,
+    /// C09: a reinsertion filter that admits some keys
+    pub reins: bool,
+    /// C01 / C07: 1 MiB blocks (several blobs per block); the device wraps until a reused block's new
+    /// generation ends exactly on an old blob boundary, then the store is restarted
+    pub blobreuse: bool,
 }
 
 pub fn gen_cfg(rng: &mut Rng, o: GenOpts) -> HybCfg {
@@ -562,6 +586,9 @@ pub fn gen_cfg(rng: &mut Rng, o: GenOpts) -> HybCfg {
             (8, 2, 2),
             (8, 3, 1),
         ]);
+        // with a reinsertion filter the device must be able to absorb what reclaim writes back: more blocks, and
+        // (in gen_op) one-page entries only; the filter admits key 0 alone ("only extremely important entries")
+        let (blocks, flushers, thr) = if o.reins { (*rng.pick(&[12usize, 16]), *rng.pick(&[1usize, 2]), 1usize) } else { (blocks, flushers, thr) };
         return HybCfg {
             woi: true,
             foc: true,
@@ -573,6 +600,8 @@ pub fn gen_cfg(rng: &mut Rng, o: GenOpts) -> HybCfg {
             lossy: true,
             thr,
             reclaimers: rng.range(1, 2) as usize,
+            reins: if o.reins { 100 } else { 0 },
+            bsize: BLOCK,
             domain: "blk".into(),
             hmode: HMode::Id,
             keys: rng.range(4, 9),
@@ -593,6 +622,8 @@ pub fn gen_cfg(rng: &mut Rng, o: GenOpts) -> HybCfg {
         lossy,
         thr: 1,
         reclaimers: 1,
+        reins: 0,
+        bsize: BLOCK,
         domain: "hyb".into(),
         hmode: match (o.collide, rng.below(6)) {
             (true, 0..=2) | (false, 0) => HMode::Const(7),
@@ -609,7 +640,11 @@ pub fn gen_op(rng: &mut Rng, ex: &HExec, o: GenOpts) -> HOp {
     if o.overload {
         loop {
             let op = match rng.below(100) {
-                0..=54 => HOp::Ins { k: rng.below(keys), sz: *rng.pick(&['s', 's', 'm', 'n', 'l', 'l']), loc: '-' },
+                0..=54 => HOp::Ins {
+                    k: rng.below(keys),
+                    sz: if o.reins { *rng.pick(&['s', 's', 'm']) } else { *rng.pick(&['s', 's', 'm', 'n', 'l', 'l']) },
+                    loc: '-',
+                },
                 55..=64 => HOp::WIns { k: rng.below(keys), sz: 's', force: true },
                 65..=69 => {
                     if o.nodel {
@@ -664,7 +699,85 @@ pub fn gen_op(rng: &mut Rng, ex: &HExec, o: GenOpts) -> HOp {
     }
 }
 
+/// Directed scenario: blocks that hold several blobs are filled, reclaimed and reused; the run is closed at a
+/// moment when the new generation of a reused block ends right where a blob of its previous generation began.
+pub fn run_blobreuse(rng: &mut Rng) -> String {
+    let cfg = HybCfg {
+        woi: true,
+        foc: true,
+        tomb: rng.chance(1, 2),
+        memcap: 2,
+        lru: false,
+        blocks: 4,
+        flushers: 1,
+        lossy: true,
+        thr: 1,
+        reclaimers: 1,
+        reins: 0,
+        bsize: 1024 * 1024,
+        domain: "blk".into(),
+        hmode: HMode::Id,
+        keys: 253,
+    };
+    let mut out = cfg.line();
+    out.push('\n');
+    *crate::CUR_TRACE.lock() = out.clone();
+    let keys = cfg.keys;
+    let tomb = cfg.tomb;
+    let mut ex = HExec::new(cfg);
+    ex.skip_loads = true;
+    let first_block = if tomb { 1 } else { 0 };
+    let mut generation = std::collections::BTreeMap::<u32, u32>::new();
+    // one-page entries: a block takes 170 in its first blob (index page + 170 pages), the rest in a second blob
+    let target_pages = 171usize;
+    let per_block = (1024 * 1024 / PAGE) - 2 - 1; // two index pages; the last page cannot hold index + entry
+    let extra = rng.range(0, 3) as usize;
+    let mut seen = 0u64;
+    for i in 0..6000usize {
+        // keys 0..keys: first written into the first block (its second blob holds keys 170..), rewritten right
+        // after the first block is full (so that their newest copy lives in the second block); everything else
+        // gets keys outside the reported universe
+        let k = if i < per_block + extra {
+            (i as u64) % keys.max(1)
+        } else if i < 2 * per_block {
+            let j = i - (per_block + extra);
+            if (j as u64) < keys { 170 + (j as u64) % (keys - 170).max(1) } else { 100_000 + i as u64 }
+        } else {
+            100_000 + i as u64
+        };
+        out.push_str(&ex.exec(&HOp::WIns { k, sz: 's', force: true }));
+        out.push('\n');
+        let ws = ex.sim.log_since(seen);
+        seen = ex.sim.next_id();
+        let mut stop = false;
+        for w in ws.iter().filter(|w| w.partition >= first_block && w.offset > 0) {
+            if w.offset as usize == PAGE {
+                *generation.entry(w.partition).or_insert(0) += 1;
+            }
+            // the entry just written ends where the old second blob's index page is, in a reused block
+            let end = w.offset as usize + w.data.len();
+            if generation.get(&w.partition).copied().unwrap_or(0) >= 2 && end == target_pages * PAGE {
+                stop = true;
+            }
+        }
+        if stop {
+            break;
+        }
+    }
+    ex.skip_loads = false;
+    out.push_str(&ex.exec(&HOp::Reopen));
+    out.push('\n');
+    for k in 0..keys {
+        out.push_str(&ex.exec(&HOp::Get { k }));
+        out.push('\n');
+    }
+    out
+}
+
 pub fn run_case(rng: &mut Rng, maxops: u64, o: GenOpts) -> String {
+    if o.blobreuse {
+        return run_blobreuse(rng);
+    }
     let cfg = gen_cfg(rng, o);
     let mut out = cfg.line();
     out.push('\n');
@@ -763,6 +876,8 @@ pub fn main(args: &Args) -> i32 {
         collide: arg_u64(args, "collide", 0) == 1,
         overload: arg_u64(args, "overload", 0) == 1,
         nodel: arg_u64(args, "nodel", 0) == 1,
+        reins: arg_u64(args, "reins", 0) == 1,
+        blobreuse: arg_u64(args, "blobreuse", 0) == 1,
     };
     let mut rng = Rng::new(seed ^ 0x4B1D);
     for _ in 0..cases {
